@@ -174,7 +174,11 @@ def build_harness(variant):
             for d in os.listdir(base):
                 if d != key:
                     shutil.rmtree(os.path.join(base, d), ignore_errors=True)
-        rc, out_txt = sh([os.path.join(VERIF, 'harness', 'build.sh'), variant, out], env=dict(os.environ, REPO=REPO))
+        benv = dict(os.environ, REPO=REPO)
+        bvariant = variant
+        if variant == 'dyn':        # dynamically linked plain build, for valgrind
+            bvariant, benv['STATIC'] = 'plain', '0'
+        rc, out_txt = sh([os.path.join(VERIF, 'harness', 'build.sh'), bvariant, out], env=benv)
         if rc != 0:
             raise BuildError('harness build failed (%s):\n%s' % (variant, out_txt[-3000:]))
     return exe
@@ -233,7 +237,7 @@ def parse_results(text):
     return res
 
 
-def run_chunks(exe, scns, tag, root_arg, nchunks=None, timeout=1200, env=None):
+def run_chunks(exe, scns, tag, root_arg, nchunks=None, timeout=1200, env=None, wrapper=None):
     """run scenarios through exe in parallel chunks; returns {id: lines}"""
     rundir = os.path.join(BUILD, 'run', '%s-%d' % (tag, os.getpid()))
     os.makedirs(rundir, exist_ok=True)
@@ -251,7 +255,7 @@ def run_chunks(exe, scns, tag, root_arg, nchunks=None, timeout=1200, env=None):
         root = root_arg if root_arg else os.path.join(rundir, 'fs%d' % i)
         if not root_arg:
             os.makedirs(root, exist_ok=True)
-        p = subprocess.Popen([exe, fn, root], stdout=outf, stderr=subprocess.DEVNULL, env=env)
+        p = subprocess.Popen((wrapper or []) + [exe, fn, root], stdout=outf, stderr=subprocess.DEVNULL, env=env)
         procs.append((p, fn, outf))
     res = {}
     deadline = time.time() + timeout
@@ -266,11 +270,18 @@ def run_chunks(exe, scns, tag, root_arg, nchunks=None, timeout=1200, env=None):
     return res
 
 
+VALGRIND = ['valgrind', '-q', '--error-exitcode=97', '--trace-children=no', '--child-silent-after-fork=no',
+            '--errors-for-leak-kinds=none', '--undef-value-errors=yes']
+
+
 def run_impl(variant, scns, timeout=1200):
+    wrapper = None
+    if variant == 'valgrind':
+        variant, wrapper = 'dyn', VALGRIND
     exe = build_harness(variant)
     env = dict(os.environ)
-    env.setdefault('VERIF_CMD_TIMEOUT', '10')
-    return run_chunks(exe, scns, 'impl-' + variant, None, timeout=timeout, env=env)
+    env.setdefault('VERIF_CMD_TIMEOUT', '10' if not wrapper else '60')
+    return run_chunks(exe, scns, 'impl-' + variant, None, timeout=timeout, env=env, wrapper=wrapper)
 
 
 def run_model(scns, timeout=1200):
